@@ -57,18 +57,19 @@ VARIABLES
   issued, accepted, replied,   \* Seq(req)
   inflight,    \* set of vpn re-homed and not copied yet
   moved,       \* set of vpn named in an accepted request
+  dropped,     \* ids of requests whose reply was overwritten before it left (ReplySlot = "overwrite")
   pt0, content0
 
 drvv  == <<mmuIn, cur, handling, toSend, migQ, toPrepare, oneInFlight, drainAck, shootAck, migAck, restartAck,
            rdmaAck, toMMU, mmuOut, gpuOut, gpuIn>>
 memv  == <<pt, alloc>>
 envv  == <<cpIn, data, quiet>>
-histv == <<issued, accepted, replied, inflight, moved, pt0, content0>>
+histv == <<issued, accepted, replied, inflight, moved, dropped, pt0, content0>>
 vars  == <<drvv, memv, envv, histv>>
 
-\* req: [id, host, accessing (set of GPUs), want ([g -> Seq(vpn)], only requesting GPUs), size]
-NoReq == [id |-> 0, host |-> 0, accessing |-> {}, want |-> <<>>, size |-> 0]
-Cmd(k, g)  == [k |-> k, gpu |-> g, id |-> 0, v |-> 0, owner |-> 0, from |-> 0, to |-> 0, size |-> 0, vs |-> {}]
+\* req: [id, host, accessing (set of GPUs), want ([g -> Seq(vpn)], only requesting GPUs), size, src]
+NoReq == [id |-> 0, host |-> 0, accessing |-> {}, want |-> <<>>, size |-> 0, src |-> ""]
+Cmd(k, g)  == [k |-> k, gpu |-> g, id |-> 0, v |-> 0, owner |-> 0, fdev |-> 0, from |-> 0, to |-> 0, size |-> 0, vs |-> {}]
 Rsp(k, g)  == [k |-> k, gpu |-> g]
 Pages(r)   == UNION {{r.want[g][i] : i \in 1..Len(r.want[g])} : g \in DOMAIN r.want}
 Pairs(r)   == UNION {{<<g, r.want[g][i]>> : i \in 1..Len(r.want[g])} : g \in DOMAIN r.want}
@@ -81,7 +82,7 @@ EmptyInit(table, contents, allocated) ==
   /\ toMMU = <<>> /\ mmuOut = <<>> /\ gpuOut = <<>> /\ gpuIn = <<>>
   /\ pt = table /\ alloc = allocated
   /\ cpIn = [g \in GPUs |-> {}] /\ data = contents /\ quiet = [g \in GPUs |-> {}]
-  /\ issued = <<>> /\ accepted = <<>> /\ replied = <<>> /\ inflight = {} /\ moved = {}
+  /\ issued = <<>> /\ accepted = <<>> /\ replied = <<>> /\ inflight = {} /\ moved = {} /\ dropped = {}
   /\ pt0 = table /\ content0 = [v \in DOMAIN table |-> contents[<<table[v].dev, table[v].ppn>>]]
 
 \* ==================================================================== driver
@@ -95,7 +96,7 @@ TakeMMU ==
   /\ accepted' = Append(accepted, Head(mmuIn))
   /\ moved' = moved \cup Pages(Head(mmuIn))
   /\ UNCHANGED <<migQ, toPrepare, oneInFlight, shootAck, migAck, restartAck, rdmaAck, toMMU, mmuOut, gpuOut, gpuIn,
-                 memv, envv, issued, replied, inflight, pt0, content0>>
+                 memv, envv, issued, replied, inflight, dropped, pt0, content0>>
 
 \* sendToGPUs: queued commands leave through the GPU port (the code sends in queue order)
 SendCmd(i, id) ==
@@ -103,15 +104,16 @@ SendCmd(i, id) ==
   /\ gpuOut' = Append(gpuOut, [toSend[i] EXCEPT !.id = id])
   /\ toSend' = SubSeq(toSend, 1, i - 1) \o SubSeq(toSend, i + 1, Len(toSend))
   /\ UNCHANGED <<mmuIn, cur, handling, migQ, toPrepare, oneInFlight, drainAck, shootAck, migAck, restartAck, rdmaAck,
-                 toMMU, mmuOut, gpuIn, memv, envv, issued, accepted, replied, inflight, moved, pt0, content0>>
+                 toMMU, mmuOut, gpuIn, memv, envv, issued, accepted, replied, inflight, moved, dropped, pt0, content0>>
 
 \* sendMigrationReqToCP: one page copy at a time, only after every page was re-homed
-SendMig(id) ==
-  /\ migQ # <<>> /\ ~oneInFlight /\ toPrepare = {}
-  /\ gpuOut' = Append(gpuOut, [Head(migQ) EXCEPT !.id = id])
-  /\ migQ' = Tail(migQ) /\ oneInFlight' = TRUE
+\* (the code sends in queue order; the order of the page copies does not matter here)
+SendMig(i, id) ==
+  /\ i \in 1..Len(migQ) /\ ~oneInFlight /\ toPrepare = {}
+  /\ gpuOut' = Append(gpuOut, [migQ[i] EXCEPT !.id = id])
+  /\ migQ' = SubSeq(migQ, 1, i - 1) \o SubSeq(migQ, i + 1, Len(migQ)) /\ oneInFlight' = TRUE
   /\ UNCHANGED <<mmuIn, cur, handling, toSend, toPrepare, drainAck, shootAck, migAck, restartAck, rdmaAck,
-                 toMMU, mmuOut, gpuIn, memv, envv, issued, accepted, replied, inflight, moved, pt0, content0>>
+                 toMMU, mmuOut, gpuIn, memv, envv, issued, accepted, replied, inflight, moved, dropped, pt0, content0>>
 
 \* preparePageForMigration (one iteration of the loops in processShootdownCompleteRsp):
 \* allocate a fresh page p on the requesting GPU g, point the table at it, queue the copy
@@ -120,13 +122,13 @@ Rehome(g, v, p) ==
   /\ v \in DOMAIN pt
   /\ pt' = [pt EXCEPT ![v] = [dev |-> g, ppn |-> p, mig |-> TRUE]]
   /\ alloc' = alloc \cup {<<g, p>>}
-  /\ migQ' = Append(migQ, [Cmd("mig", g) EXCEPT !.v = v, !.owner = cur.host, !.from = pt[v].ppn, !.to = p,
+  /\ migQ' = Append(migQ, [Cmd("mig", g) EXCEPT !.v = v, !.owner = cur.host, !.fdev = pt[v].dev, !.from = pt[v].ppn, !.to = p,
                                                  !.size = cur.size])
   /\ migAck' = migAck + 1
   /\ toPrepare' = toPrepare \ {<<g, v>>}
   /\ inflight' = inflight \cup {v}
   /\ UNCHANGED <<mmuIn, cur, handling, toSend, oneInFlight, drainAck, shootAck, restartAck, rdmaAck, toMMU, mmuOut,
-                 gpuOut, gpuIn, envv, issued, accepted, replied, moved, pt0, content0>>
+                 gpuOut, gpuIn, envv, issued, accepted, replied, moved, dropped, pt0, content0>>
 
 \* processReturnReq: one response from a GPU
 RecvRsp ==
@@ -137,26 +139,27 @@ RecvRsp ==
            THEN /\ toSend' = toSend \o SeqOf(cur.accessing, LAMBDA g : [Cmd("shoot", g) EXCEPT !.vs = Pages(cur)])
                 /\ shootAck' = Cardinality(cur.accessing)
            ELSE UNCHANGED <<toSend, shootAck>>
-        /\ UNCHANGED <<cur, handling, toPrepare, oneInFlight, migAck, restartAck, rdmaAck, toMMU, inflight>>
+        /\ UNCHANGED <<cur, handling, toPrepare, oneInFlight, migAck, restartAck, rdmaAck, toMMU, inflight, dropped>>
      \/ /\ m.k = "shoot" /\ shootAck > 0 /\ shootAck' = shootAck - 1
         /\ toPrepare' = IF shootAck = 1 THEN Pairs(cur) ELSE toPrepare
-        /\ UNCHANGED <<cur, handling, toSend, oneInFlight, drainAck, migAck, restartAck, rdmaAck, toMMU, inflight>>
+        /\ UNCHANGED <<cur, handling, toSend, oneInFlight, drainAck, migAck, restartAck, rdmaAck, toMMU, inflight, dropped>>
      \/ /\ m.k = "mig" /\ migAck > 0 /\ migAck' = migAck - 1 /\ oneInFlight' = FALSE
         /\ IF migAck = 1       \* prepareGPURestartReqs + preparePageMigrationRspToMMU
            THEN /\ toSend' = toSend \o SeqOf(cur.accessing, LAMBDA g : Cmd("restart", g))
                 /\ restartAck' = restartAck + Cardinality(cur.accessing)
                 /\ toMMU' = <<cur>>
-           ELSE UNCHANGED <<toSend, restartAck, toMMU>>
+                /\ dropped' = dropped \cup {toMMU[i].id : i \in 1..Len(toMMU)}
+           ELSE UNCHANGED <<toSend, restartAck, toMMU, dropped>>
         /\ UNCHANGED <<cur, handling, toPrepare, drainAck, shootAck, rdmaAck, inflight>>
      \/ /\ m.k = "restart" /\ restartAck > 0 /\ restartAck' = restartAck - 1
         /\ IF restartAck = 1   \* prepareRDMARestartReqs
            THEN /\ toSend' = toSend \o SeqOf(GPUs, LAMBDA g : Cmd("rdmarestart", g))
                 /\ rdmaAck' = rdmaAck + NGPU
            ELSE UNCHANGED <<toSend, rdmaAck>>
-        /\ UNCHANGED <<cur, handling, toPrepare, oneInFlight, drainAck, shootAck, migAck, toMMU, inflight>>
+        /\ UNCHANGED <<cur, handling, toPrepare, oneInFlight, drainAck, shootAck, migAck, toMMU, inflight, dropped>>
      \/ /\ m.k = "rdmarestart" /\ rdmaAck > 0 /\ rdmaAck' = rdmaAck - 1
         /\ IF rdmaAck = 1 THEN cur' = NoReq /\ handling' = FALSE ELSE UNCHANGED <<cur, handling>>
-        /\ UNCHANGED <<toSend, toPrepare, oneInFlight, drainAck, shootAck, migAck, restartAck, toMMU, inflight>>
+        /\ UNCHANGED <<toSend, toPrepare, oneInFlight, drainAck, shootAck, migAck, restartAck, toMMU, inflight, dropped>>
   /\ UNCHANGED <<mmuIn, migQ, mmuOut, gpuOut, memv, envv, issued, accepted, replied, moved, pt0, content0>>
 
 \* sendToMMU
@@ -165,14 +168,14 @@ SendReply ==
   /\ mmuOut' = Append(mmuOut, Head(toMMU)) /\ toMMU' = <<>>
   /\ replied' = Append(replied, Head(toMMU))
   /\ UNCHANGED <<mmuIn, cur, handling, toSend, migQ, toPrepare, oneInFlight, drainAck, shootAck, migAck, restartAck,
-                 rdmaAck, gpuOut, gpuIn, memv, envv, issued, accepted, inflight, moved, pt0, content0>>
+                 rdmaAck, gpuOut, gpuIn, memv, envv, issued, accepted, inflight, moved, dropped, pt0, content0>>
 
 \* =============================================================== environment
 EnvMMUReq(r) ==
   /\ Len(mmuIn) < PortCap
   /\ mmuIn' = Append(mmuIn, r) /\ issued' = Append(issued, r)
   /\ UNCHANGED <<cur, handling, toSend, migQ, toPrepare, oneInFlight, drainAck, shootAck, migAck, restartAck, rdmaAck,
-                 toMMU, mmuOut, gpuOut, gpuIn, memv, envv, accepted, replied, inflight, moved, pt0, content0>>
+                 toMMU, mmuOut, gpuOut, gpuIn, memv, envv, accepted, replied, inflight, moved, dropped, pt0, content0>>
 
 TakeReply ==
   /\ mmuOut # <<>> /\ mmuOut' = Tail(mmuOut)
@@ -188,11 +191,11 @@ GPUTake ==              \* the command at the head of the GPU port reaches its c
 
 \* GPU g executes command c and answers.  A page copy reads `from` on the GPU whose PMC the
 \* command names and writes `to` on g.
-GPURsp(g, c) ==
+GPURsp(g, c, val) ==
   /\ c \in cpIn[g]
   /\ cpIn' = [cpIn EXCEPT ![g] = @ \ {c}]
   /\ gpuIn' = Append(gpuIn, Rsp(c.k, g))
-  /\ data' = IF c.k = "mig" THEN [data EXCEPT ![<<g, c.to>>] = data[<<c.owner, c.from>>]] ELSE data
+  /\ data' = IF c.k = "mig" THEN (<<g, c.to>> :> val) @@ data ELSE data
   /\ quiet' = CASE c.k = "drain"       -> [quiet EXCEPT ![g] = @ \cup {"rdma"}]
                 [] c.k = "shoot"       -> [quiet EXCEPT ![g] = @ \cup {"tlb"}]
                 [] c.k = "restart"     -> [quiet EXCEPT ![g] = @ \ {"tlb"}]
@@ -200,7 +203,7 @@ GPURsp(g, c) ==
                 [] OTHER               -> quiet
   /\ inflight' = IF c.k = "mig" THEN inflight \ {c.v} ELSE inflight
   /\ UNCHANGED <<mmuIn, cur, handling, toSend, migQ, toPrepare, oneInFlight, drainAck, shootAck, migAck, restartAck,
-                 rdmaAck, toMMU, mmuOut, gpuOut, memv, issued, accepted, replied, moved, pt0, content0>>
+                 rdmaAck, toMMU, mmuOut, gpuOut, memv, issued, accepted, replied, moved, dropped, pt0, content0>>
 
 \* ------------------------------------------------------------------ MC next
 \* the MMU asks for pages that live on `host`, on behalf of one GPU other than the host
@@ -211,15 +214,16 @@ MCEnvReq ==
          \E acc \in (SUBSET GPUs) \ {{}} :
            /\ h \in acc
            /\ EnvMMUReq([id |-> Len(issued) + 1, host |-> h, accessing |-> acc,
-                         want |-> (g :> SeqOf(vs, LAMBDA v : v)), size |-> 1])
+                         want |-> (g :> SeqOf(vs, LAMBDA v : v)), size |-> 1, src |-> "MMU"])
 
 \* the allocator hands out the lowest free page of the device (MC; the trace binds the real choice)
 LowestFree(g) == CHOOSE p \in PPagesMC[g] : <<g, p>> \notin alloc /\ \A q \in PPagesMC[g] : <<g, q>> \notin alloc => p <= q
 DoRehome == \E pr \in toPrepare : (\E p \in PPagesMC[pr[1]] : <<pr[1], p>> \notin alloc) /\ Rehome(pr[1], pr[2], LowestFree(pr[1]))
 DoSendCmd == toSend # <<>> /\ SendCmd(1, 0)
-DoGPURsp == \E g \in GPUs : \E c \in cpIn[g] : GPURsp(g, c)
+Copied(c) == IF c.k = "mig" /\ <<c.owner, c.from>> \in DOMAIN data THEN data[<<c.owner, c.from>>] ELSE -1
+DoGPURsp == \E g \in GPUs : \E c \in cpIn[g] : GPURsp(g, c, Copied(c))
 
-Next == TakeMMU \/ RecvRsp \/ SendReply \/ TakeReply \/ GPUTake \/ MCEnvReq \/ DoSendCmd \/ SendMig(0) \/ DoRehome \/ DoGPURsp
+Next == TakeMMU \/ RecvRsp \/ SendReply \/ TakeReply \/ GPUTake \/ MCEnvReq \/ DoSendCmd \/ SendMig(1, 0) \/ DoRehome \/ DoGPURsp
 
 MCPhys == UNION {{<<g, p>> : p \in PPagesMC[g]} : g \in GPUs}
 Init == EmptyInit(PT0MC, [pp \in MCPhys |-> 100 * pp[1] + pp[2]],
@@ -228,7 +232,7 @@ Spec == Init /\ [][Next]_vars
 
 Fairness ==
   /\ WF_vars(TakeMMU) /\ WF_vars(RecvRsp) /\ WF_vars(SendReply) /\ WF_vars(TakeReply) /\ WF_vars(GPUTake)
-  /\ WF_vars(DoSendCmd) /\ WF_vars(SendMig(0)) /\ WF_vars(DoRehome) /\ WF_vars(DoGPURsp)
+  /\ WF_vars(DoSendCmd) /\ WF_vars(SendMig(1, 0)) /\ WF_vars(DoRehome) /\ WF_vars(DoGPURsp)
 FairSpec == Spec /\ Fairness
 
 \* -------------------------------------------------------------- properties
@@ -236,7 +240,8 @@ IsPrefix(s, t) == Len(s) <= Len(t) /\ \A i \in 1..Len(s) : s[i] = t[i]
 Outstanding(k) == {c \in UNION {cpIn[g] : g \in GPUs} : c.k = k} \cup {gpuOut[i] : i \in {j \in 1..Len(gpuOut) : gpuOut[j].k = k}}
 
 \* the contents seen through the page table are those of before the migration (pages being copied excepted)
-ContentsPreserved == \A v \in DOMAIN pt : v \notin inflight => data[<<pt[v].dev, pt[v].ppn>>] = content0[v]
+DataAt(pp) == IF pp \in DOMAIN data THEN data[pp] ELSE -1
+ContentsPreserved == \A v \in DOMAIN pt : v \notin inflight => DataAt(<<pt[v].dev, pt[v].ppn>>) = content0[v]
 
 \* when the MMU is answered, every requested page is mapped on the GPU that asked for it and has been copied
 TableMapsToDestination ==
@@ -270,6 +275,7 @@ HandshakeOrder ==
 ReplyOnce ==
   /\ IsPrefix(replied, accepted) /\ IsPrefix(accepted, issued)
   /\ handling => Len(accepted) >= 1
+NoReplyDropped == dropped = {}
 \* ... and a reply is never dropped: the reply of request k is on its way before request k+1 is taken
 ReplyNotDropped == Len(accepted) - Len(replied) <= (IF handling THEN 1 ELSE 0) + Len(toMMU)
 
